@@ -1553,7 +1553,8 @@ def run_scenario(seed, shard, idx, tier):
             recipe["files"] = dict(recipe["files"], **KEYFILES)
     cache = {}
     stats = {"runs": 0, "steps": 0, "violations": [], "behaviours": set(),
-             "fired": {}, "digest": hashlib.sha256(), "tool": tool}
+             "fired": {}, "digest": hashlib.sha256(), "tool": tool,
+             "ops": {}}
     results = {}
     for chan in sorted(runs):
         recipe, ctx = runs[chan]
@@ -1564,6 +1565,14 @@ def run_scenario(seed, shard, idx, tier):
         stats["digest"].update(res.digest().encode())
         classes = judge_run(scn, chan, recipe, ctx, res, cache)
         exitc = res.exit if res.exit in (0, "killed") else "nonzero"
+        if chan == "file":
+            opname = "%s:%s%s:%s" % (
+                tool, scn.get("oper") or scn.get("outmode") or
+                ("eyaml" if scn.get("eyaml") else "plain"),
+                ":config" if any(k.endswith(".ini")
+                                 for k in recipe["files"]) else "",
+                "exit0" if res.exit == 0 else "nonzero")
+            stats["ops"][opname] = stats["ops"].get(opname, 0) + 1
         stats["behaviours"].add((tool, chan, exitc,
                                  scn.get("oper") or scn.get("outmode") or
                                  tuple(scn.get("edits", ()))[:2] or
@@ -1653,7 +1662,7 @@ def shard_main(payload):
     seed, shard, lo, hi, tier = payload
     agg = {"runs": 0, "steps": 0, "scenarios": 0, "violations": [],
            "behaviours": set(), "fired": {}, "digests": [], "samples": [],
-           "per_tool": {}}
+           "per_tool": {}, "ops": {}}
     for idx in range(lo, hi):
         st = run_scenario(seed, shard, idx, tier)
         agg["scenarios"] += 1
@@ -1664,6 +1673,8 @@ def shard_main(payload):
         for kind, num in st["fired"].items():
             agg["fired"][kind] = agg["fired"].get(kind, 0) + num
         agg["digests"].append((idx, st["digest"]))
+        for name, num in st["ops"].items():
+            agg["ops"][name] = agg["ops"].get(name, 0) + num
         agg["per_tool"][st["tool"]] = agg["per_tool"].get(st["tool"], 0) \
             + st["runs"]
         if st["sample"]:
@@ -1808,7 +1819,10 @@ def main():
     digests = []
     fired = {}
     per_tool = {}
+    ops = {}
     for res in results:
+        for name, num in res["ops"].items():
+            ops[name] = ops.get(name, 0) + num
         for key in agg:
             agg[key] += res[key]
         behaviours |= res["behaviours"]
@@ -1887,6 +1901,7 @@ def main():
             "samples": samples[:6],
             "scenarios": agg["scenarios"],
             "runs_per_tool": per_tool,
+            "operations_exercised_file_channel": dict(sorted(ops.items())),
             "read_faults_fired": fired,
             "simulated_io_steps": agg["steps"],
             "runs_per_hour": round(agg["runs"] / max(wall, 1e-6) * 3600),
